@@ -17,7 +17,7 @@ def schemaOf : String → Option (List Key × Bool)
   | "S2" => some ([key "app_name" .string true, key "level" (.u 8) true, key "tag" .string false], true)
   | _ => none
 
-def knownProfiles : List (List Nat) := [sBytes "dev", sBytes "prod", sBytes "local_development"]
+def knownProfiles : List (List Nat) := [sBytes "dev", sBytes "prod", sBytes "local_development", sBytes "staging2", sBytes "prodEU"]
 
 /-- Nested JSON object → leaf paths (bool / integer / string leaves). -/
 partial def flatten (pre : Path) (j : Json) : Option (List (Path × Leaf)) :=
